@@ -10,6 +10,7 @@ from gram import random_grammar, random_sentence, mutate, all_strings, earley_pr
 
 LEVEL = "proof"
 PROP_MODULE = "Rustemo.Props.C12"
+GLR_MODULE = "Rustemo.Props.C12Glr"
 FOREIGN = "x"   # a character that is no terminal of the generated grammars (and not whitespace)
 
 
@@ -141,6 +142,7 @@ N_FIXED_EXTRA = 5
 def run(rep, tier, seed):
     rng = random.Random(seed)
     proofs_ok = lean_obligations(rep, PROP_MODULE)
+    proofs_ok = lean_obligations(rep, GLR_MODULE) and proofs_ok
     ok, log = build_harness()
     if not ok:
         rep.oblige("cargo build harness/dyn against /repo", False, log[-1500:])
@@ -158,7 +160,8 @@ def run(rep, tier, seed):
     lf.add_histories(rng, lr)
     lf.run_cases(lr, extra_requests=extra_requests)
     lf.add_histories(rng, glr)
-    lf.run_cases(glr, model=False)
+    # hypotheses of the GLR-half theorems (Props/C12Glr.lean) on the real right-nulled table
+    lf.run_cases(glr, parse_model=False, extra_requests=lambda c: ["glr cert", "cert viable"])
     # GLR counting solutions of a highly ambiguous input can exceed the 3 s watchdog without hanging
     rep.counters["glr_timeouts_that_were_only_slow"] = lf.confirm_timeouts(glr)
     check(rep, lr, glr, proofs_ok)
@@ -234,11 +237,30 @@ def check(rep, lr, glr, proofs_ok):
             rep.violation(dict(c.describe(k), why=f"token-level model tparse answers '{tl}', the viable-prefix oracle says "
                                f"'{want}' (the real parser agrees with the oracle)", kind="impl!=model",
                                n_breaks=len(tlr_breaks)), no_input=True)
-    lf.evaluate(rep, glr, oracle, True, PROP_MODULE, compare_model=False)
+    glr_cert_fail = []
+    for c in glr:
+        ex = getattr(c, "extra", None)
+        if c.dump is None or not ex or len(ex) < 2:
+            continue
+        lay = c.gram is not None and c.gram.layout is not None
+        ok = ("glr=1" in ex[0] and "completeRN=1" in ex[0] and ex[1].startswith("productive=1 anchored=1 nonempty=1")
+              and "layoutsafe=FAIL" not in ex[0])
+        rep.count("certC12glr(Cert.glr+completeRN+viable)" + ("_layout" if lay else "") + ("_pass" if ok else "_FAIL"))
+        if not ok and not lay:
+            glr_cert_fail.append(c)
+    f_glr, _ = lf.evaluate(rep, glr, oracle, True, GLR_MODULE, compare_model=False)
+    if glr_cert_fail and not f_glr and not rep.violations:
+        c = min(glr_cert_fail, key=lambda c: len(c.text))
+        rep.violation(dict(c.describe(), why="Cert.glr / Cert.completeRN / Cert.viable fails on the compiler's right-nulled table: hypotheses of "
+                           "C12_glr_error_at_first_offending_token not met: " + c.extra[0] + " | " + c.extra[1] +
+                           " -- the oracle found no input with a misplaced error", kind="certificate",
+                           n_failures=len(glr_cert_fail)), no_input=True)
     for c in lr + glr:
         for (_, _, _, m) in c.inputs:
             rep.count("expect:" + ("sentence" if m["expect"] is None else "error"))
-    rep.assumptions += ["GLR half: oracle on implementation output only"]
+    rep.assumptions += ["GLR half: theorems of Props/C12Glr.lean over the engine model under the token-level lexer hypothesis LexDet "
+                        "(single-character terminals here); the engine model is tied to the real GlrParser by C03's correspondence, "
+                        "this check compares the real GLR errors with the viable-prefix oracle and runs the certificates"]
 
 
 def replay(rep, path):
